@@ -31,6 +31,31 @@ type c07Case struct {
 	Kind string `json:"decode_as,omitempty"` // geometry | feature | fc
 }
 
+// JSON form of a case: a document that is not valid UTF-8 is stored as bytes (see splitText).
+type c07Wire c07Case
+
+func (cs c07Case) MarshalJSON() ([]byte, error) {
+	w := struct {
+		c07Wire
+		DocBytes []byte `json:"doc_bytes,omitempty"`
+	}{c07Wire: c07Wire(cs)}
+	w.Doc, w.DocBytes = splitText(cs.Doc)
+	return json.Marshal(w)
+}
+
+func (cs *c07Case) UnmarshalJSON(b []byte) error {
+	var w struct {
+		c07Wire
+		DocBytes []byte `json:"doc_bytes"`
+	}
+	if err := json.Unmarshal(b, &w); err != nil {
+		return err
+	}
+	*cs = c07Case(w.c07Wire)
+	cs.Doc = joinText(w.Doc, w.DocBytes)
+	return nil
+}
+
 func init() {
 	engine.Register(&engine.Check{
 		ID: "C07", Level: "exploration",
